@@ -49,7 +49,9 @@ def routing_script(r, idx, ops):
         elif o == "err":
             # a frame of unknown type in an authenticated packet of the victim: connection error there only
             d = r.choice(["c2s", "s2c"])
-            steps.append({"do": "mitm", "dir": d, "node": 1, "nth_short": 0, "mode": "append",
+            # (it replaces the packet's frames: appended behind a STREAM frame without a length field it
+            # would become stream data instead of a frame)
+            steps.append({"do": "mitm", "dir": d, "node": 1, "nth_short": 0, "mode": "replace",
                           "hex": (bytes([0x40, 0x7f]) + b"\x00" * 3).hex(), "count": 1})
             steps.append({"do": "op", "n": 1, "c": 0, "op": {"op": "ping"}})
             steps.append({"do": "op", "n": 0, "c": 0, "peer_of": 1, "op": {"op": "ping"}})
